@@ -12,6 +12,14 @@ use super::avx32_utils;
 use super::avx_vector::{self, AvxArray};
 use super::avx_vector::{AvxArrayMut, AvxVector, AvxVector128, AvxVector256, Rotation90};
 
+// Loads one Complex<f32> and duplicates it into both complex slots of a 128-bit vector.
+// Complex<f32> is only 4-byte aligned, so this is an alignment-free 64-bit load (movq) rather than a load through *const f64
+#[inline(always)]
+unsafe fn load1_complex_f32(ptr: *const Complex<f32>) -> __m128 {
+    let lo = _mm_castsi128_pd(_mm_loadl_epi64(ptr as *const __m128i));
+    _mm_castpd_ps(_mm_unpacklo_pd(lo, lo))
+}
+
 // Safety: This macro will call `self::perform_fft_f32()` which probably has a #[target_feature(enable = "...")] annotation on it.
 // Calling functions with that annotation is unsafe, because it doesn't actually check if the CPU has the required features.
 // Callers of this macro must guarantee that users can't even obtain an instance of $struct_name if their CPU doesn't have the required CPU features.
@@ -303,7 +311,7 @@ impl Butterfly5Avx<f32> {
 impl<T> Butterfly5Avx<T> {
     #[target_feature(enable = "avx", enable = "fma")]
     unsafe fn perform_fft_f32(&self, mut buffer: impl AvxArrayMut<f32>) {
-        let input0 = _mm_castpd_ps(_mm_load1_pd(buffer.input_ptr() as *const f64)); // load the first element of the input, and duplicate it into both complex number slots of input0
+        let input0 = load1_complex_f32(buffer.input_ptr()); // load the first element of the input, and duplicate it into both complex number slots of input0
         let input12 = buffer.load_partial2_complex(1);
         let input34 = buffer.load_partial2_complex(3);
 
@@ -372,7 +380,7 @@ impl<T> Butterfly7Avx<T> {
     #[target_feature(enable = "avx", enable = "fma")]
     unsafe fn perform_fft_f32(&self, mut buffer: impl AvxArrayMut<f32>) {
         // load the first element of the input, and duplicate it into both complex number slots of input0
-        let input0 = _mm_castpd_ps(_mm_load1_pd(buffer.input_ptr() as *const f64));
+        let input0 = load1_complex_f32(buffer.input_ptr());
 
         // we want to load 3 elements into 123 and 3 elements into 456, but we can only load 4, so we're going to do slightly overlapping reads here
         // we have to reverse 456 immediately after loading, and that'll be easiest if we load the 456 into the latter 3 slots of the register, rather than the front 3 slots
@@ -495,7 +503,7 @@ impl Butterfly11Avx<f32> {
 impl<T> Butterfly11Avx<T> {
     #[target_feature(enable = "avx", enable = "fma")]
     unsafe fn perform_fft_f32(&self, mut buffer: impl AvxArrayMut<f32>) {
-        let input0 = _mm_castpd_ps(_mm_load1_pd(buffer.input_ptr() as *const f64)); // load the first element of the input, and duplicate it into both complex number slots of input0
+        let input0 = load1_complex_f32(buffer.input_ptr()); // load the first element of the input, and duplicate it into both complex number slots of input0
         let input1234 = buffer.load_complex(1);
         let input56 = buffer.load_partial2_complex(5);
         let input78910 = buffer.load_complex(7);
@@ -679,7 +687,7 @@ impl<T> Butterfly9Avx<T> {
         // we're going to load these elements in a peculiar way. instead of loading a row into the first 3 element of each register and leaving the last element empty
         // we're leaving the first element empty and putting the data in the last 3 elements. this will let us do 3 total complex multiplies instead of 4.
 
-        let input0_lo = _mm_castpd_ps(_mm_load1_pd(buffer.input_ptr() as *const f64));
+        let input0_lo = load1_complex_f32(buffer.input_ptr());
         let input0_hi = buffer.load_partial2_complex(1);
         let input0 = AvxVector256::merge(input0_lo, input0_hi);
         let input1 = buffer.load_complex(2);
@@ -769,7 +777,7 @@ impl<T> Butterfly12Avx<T> {
         // we're leaving the first element empty and putting the data in the last 3 elements. this will save us a complex multiply.
 
         // for everything but the first element, we can do overlapping reads. for the first element, an "overlapping read" would have us reading from index -1, so instead we have to shuffle some data around
-        let input0_lo = _mm_castpd_ps(_mm_load1_pd(buffer.input_ptr() as *const f64));
+        let input0_lo = load1_complex_f32(buffer.input_ptr());
         let input0_hi = buffer.load_partial2_complex(1);
         let input_rows = [
             AvxVector256::merge(input0_lo, input0_hi),
